@@ -1738,7 +1738,12 @@ def run(ctx) -> Result:
         "default step, step setter, generate_perturbations, kwargs, input array reused in place, compute_optimal_step call "
         "points); rounded stream (decimal points/steps, default steps) with explicit rounding terms; discipline cases: named "
         "sized inputs/outputs, linearize in approximation mode (serial/parallel, differentiated input/output subsets), "
-        "compute_approx_jac(x_indices), check_jacobian(indices) on right and wrong analytic Jacobians. "
+        "compute_approx_jac(x_indices), check_jacobian(indices) on right and wrong analytic Jacobians; discipline histories: "
+        "one DisciplineJacApprox (compute_approx_jac / check_jacobian after execute(point), step attribute changed in between) or "
+        "one discipline in an approximation mode (add_differentiated_inputs/outputs + linearize(input_data), "
+        "compute_all_jacobians, Discipline.check_jacobian(input_data, input_names, output_names, indices), linearization_mode "
+        "setter; default / no / memory-full cache), 2-5 requests with the same or other output names, input names, name "
+        "orders, x_indices, steps and points (points differ from the default inputs). "
         "A case is non-trivial when n>=2 or m>=2 (sessions and discipline cases always); distinct by protocol line(s)"
     )
     res.assumptions = [
@@ -1760,6 +1765,10 @@ def run(ctx) -> Result:
     disc_corpus = [c["disc_case"] for c in corpus if "disc_case" in c]
     check_disc_cases(res, disc_corpus)
     check_sessions(res, [c["session"] for c in corpus if "session" in c])
+    if any("hist" in c for c in corpus):
+        from harness import c16_hist
+
+        c16_hist.check_hists(res, [c["hist"] for c in corpus if "hist" in c])
     res.count("corpus", len(corpus))
     # systematic: every ordered subset for n <= 4, every scheme, scalar/vector step, with/without design space
     reps = 3 if ctx.thorough else 1
@@ -1822,6 +1831,15 @@ def run(ctx) -> Result:
             c["diff_io"] = [rng.sample(ins, rng.randint(1, len(ins))), rng.sample(outs, rng.randint(1, len(outs)))]
         dcs.append(c)
     check_disc_cases(res, dcs)
+    # histories on ONE DisciplineJacApprox / one discipline in an approximation mode: successive requests with the
+    # same inputs but other outputs, other input subsets / orders, other steps, x_indices, other points (away from
+    # the default inputs), through compute_approx_jac / check_jacobian / linearize / Discipline.check_jacobian
+    from harness import c16_hist
+
+    hcs = [c16_hist.gen_hist(rng) for _ in range(2400 if ctx.thorough else 260)]
+    for i in range(0, len(hcs), 400):
+        c16_hist.check_hists(res, hcs[i : i + 400])
+    res.count("stream=discipline-histories", len(hcs))
     # out-of-scope probes (information only)
     probes = []
     for _ in range(60):
@@ -1864,6 +1882,10 @@ def replay(path: str) -> int:
         for k, m in bad:
             print("ORACLE FAILS:", k, m)
         return 1 if bad else 0
+    if "hist" in rp:
+        from harness import c16_hist
+
+        return c16_hist.replay_hist(rp["hist"])
     if "session" in rp:
         sess = rp["session"]
         res = Result(PID)
